@@ -187,7 +187,8 @@ class Trace:
 def ref_trace(binary, args=(), max_steps=5_000_000, validate=False, timeout=600):
     """Reference trace of `binary` (cached next to it). With validate=True the program is traced
     twice and the traces must be identical (oracle self-check)."""
-    tag = common.sha(*args)[:8] if args else 'noargs'
+    # the initial stack layout depends on argv and the environment: both are part of the cache key
+    tag = common.sha(*args, *[f'{k}={v}' for k, v in sorted(fixed_env().items())])[:10]
     prefix = os.path.join(binary.dir, f'trace-{tag}')
     tick = binary.sym_addr('TICK')
 
